@@ -3,6 +3,7 @@ package c08
 
 import (
 	"context"
+	"errors"
 	"fmt"
 	"sort"
 	"testing"
@@ -24,7 +25,7 @@ import (
 
 // Ops a controller can attempt.
 var Ops = []string{"Get", "GetUncached", "List", "ListUncached", "ContextWithTeardown", "Create", "Update", "Modify", "ModifyWithResult",
-	"Teardown", "Destroy", "AddFinalizer", "RemoveFinalizer"}
+	"Teardown", "Destroy", "AddFinalizer", "RemoveFinalizer", "CleanupOutputs"}
 
 // Relations between the target (n1, TT, x) and the controller's declarations.
 var Relations = []string{"output-excl", "output-shared", "in-weak-kind", "in-weak-id", "in-weak-otherid", "in-strong-kind", "in-strong-id",
@@ -247,6 +248,8 @@ type rw interface {
 	controller.Writer
 }
 
+var errNoOutputTracker = errors.New("harness: this controller flavour has no output tracker")
+
 type attemptResult struct {
 	err    error
 	got    resource.Resource
@@ -284,6 +287,17 @@ func attempt(ctx context.Context, r rw, p Plan) (res attemptResult) {
 	}
 
 	switch p.Op {
+	case "CleanupOutputs":
+		// output tracking (plain controllers only): everything of the kind that this reconcile did not touch is removed
+		ot, ok := r.(controller.OutputTracker)
+		if !ok {
+			res.err = errNoOutputTracker
+
+			return res
+		}
+
+		ot.StartTrackingOutputs()
+		res.err = ot.CleanupOutputs(ctx, ptr)
 	case "Get":
 		res.got, res.err = r.Get(ctx, ptr)
 	case "GetUncached":
@@ -405,6 +419,7 @@ func runBubble(p Plan) (v hk.Verdict) {
 	}
 
 	mk("n1", tt, "bystander", foreign, 0, false)
+	mk("n1", tt, "bystander0", "", 0, false) // owned by nobody: not the controller's either
 	mk("n2", tt, tid, foreign, 0, false)
 	mk("n1", "TB", tid, foreign, 0, false)
 
@@ -580,6 +595,45 @@ func runBubble(p Plan) (v hk.Verdict) {
 
 			v.Label("pair-with-different-answers")
 		}
+	}
+
+	if p.Op == "CleanupOutputs" {
+		if errors.Is(res.err, errNoOutputTracker) {
+			v.Label("no-output-tracker")
+			v.Outcome = "not applicable"
+
+			return v
+		}
+
+		// whatever the declarations: only resources the controller owns may be affected
+		for _, e := range log[nBefore:] {
+			if b := before[e.Commit.New.Key]; b == nil || b.Owner != me {
+				v.Failf("%s: output cleanup changed %s, which is not owned by the controller (before: %s)", desc, e.Commit.New, b)
+			}
+		}
+
+		switch {
+		case !acc.readList:
+			if res.err == nil || classified(res.err) || changed {
+				v.Failf("%s: the kind is not readable by the declarations %+v / %+v, yet output cleanup returned %v (changed=%v)", desc, ins, outs, res.err, changed)
+			}
+		case !acc.write:
+			if changed {
+				v.Failf("%s: the kind is not an output, yet output cleanup changed the state: %s -> %s", desc, snapshot(before), snapshot(after))
+			}
+		default:
+			if tgt != nil && tgt.Owner == me && !p.Fin && after[tk] != nil && res.err == nil {
+				v.Failf("%s: output cleanup left the untouched output %s behind", desc, after[tk])
+			}
+
+			v.NonTrivial = true
+
+			v.Label("output-cleanup-on-own-kind")
+		}
+
+		v.Outcome = fmt.Sprintf("cleanup err=%v changed=%v", res.err, changed)
+
+		return v
 	}
 
 	// commits outside the target key are never acceptable
